@@ -19,7 +19,7 @@
               what /repo does now, measured by the harness on every run; variant_repaired =
               after the proposed fixes).  Value/type theorems hold for EVERY variant.       *)
 From Coq Require Import ZArith QArith Reals List Bool Ring.
-From Verif Require Import Base.Num Base.Vec C04.Model C04.Cplx C04.Proofs C04.Instances C04.Refuted.
+From Verif Require Import Base.Num Base.Vec C04.Model C04.ModelIP C04.Cplx C04.Proofs C04.ProofsIP C04.Instances C04.Refuted.
 Import ListNotations.
 
 (* T1 (core).  Over ANY commutative ring carried by the Num class (covers R, C, Qc): for every
@@ -199,3 +199,20 @@ Example patterns_accepted :
   /\ build variant_current (SCMul three (SCMul two A))                   (* b*(a*A) merges *)
      = Ok (OLScal false (OLeaf (LSq 0 2 [0%Q; 0%Q])) 6%Q).
 Proof. vm_compute. repeat split; reflexivity. Qed.
+
+(* T1 (in place, "whatever out contained before").  [ipp] runs the in-place _call bodies on
+   buffers of [option T] where None = uninitialised memory / NaN and every arithmetic step is
+   strict in None (C04/ModelIP.v; leaves are assumed to overwrite `out` without reading it).
+   For every vector-valued expression of any depth, every point and EVERY initial content of
+   `out` -- all-None included -- the buffer ends up fully defined and equal to the table value:
+   neither the old `out` nor any uninitialised temporary leaks into the result. *)
+Theorem inplace_ignores_out : forall (T : Type) (N : Num T),
+  ring_theory nzero none_ nadd nmul nsub nopp (@eq T) ->
+  (forall u c : T, ndiv u c = nmul (ndiv none_ c) u) ->
+  (forall a b : T, neqb a b = true -> a = b) ->
+  forall (vt : variant) (s : sexpr T) (o : oexpr T),
+  sleaves_ok s -> build vt s = Ok o -> (exists n, sran s = SV n) ->
+  forall (x : list T) (out : list (option T)), length x = dim (sdom s) ->
+    ipp o (pure x) out = pure (denote s x).
+Proof. exact @ProofsIP.build_inplace_sound. Qed.
+Print Assumptions inplace_ignores_out.
